@@ -216,7 +216,8 @@ class Gen:
         if kind == 'gen':
             body = ['    yield x'] + body + ['    return x']
         elif kind == 'agen':
-            body = ['    yield x'] + body
+            # every step after the first suspends at least once inside the step (an inner await) before it yields
+            body = ['    yield x', '    x = ((await Susp()) or 0) + x'] + body + ['    x = ((await Susp()) or 0) + x', '    yield x']
         elif kind == 'co':
             body = body + ['    return x']
         else:
@@ -235,6 +236,8 @@ def make_program(rnd, features, threads=False):
             k = 'gen'
         elif 'co' in features and q < (0.8 if 'cotasks' in features else 0.35):
             k = 'co'
+        if 'agen' in features and rnd.random() < 0.6:
+            k = 'agen'
         g.kinds[i] = k
     g.kinds[0] = 'fn'
     oneline = set()
@@ -325,6 +328,27 @@ def make_program(rnd, features, threads=False):
                         ind + 'except (ValueError, StopIteration):', ind + '    pass']
             return [ind + 'try:', ind + '    g1 = %s(%s)' % (tgt, a), ind + '    g2 = %s(%s)' % (tgt, a), ind + '    next(g1)', ind + '    next(g2)',
                     ind + '    next(g1)', ind + '    next(g2)', ind + '    g1.close()', ind + 'except (ValueError, StopIteration):', ind + '    pass']
+        if k == 'agen':
+            # two async generators alive at once on one thread, their steps (asend) driven by hand like two tasks: a step
+            # may suspend in an inner await, and the step that started first may finish first while the other is still
+            # suspended mid-step (non-LIFO)
+            ags = [x for x in names if kinds[x] == 'agen']
+            nm2 = rnd.choice(ags)
+            b = '%d, %d' % (rnd.randrange(0, 12), rnd.randrange(0, 4))
+            order = rnd.choice(['(0, 1)', '(1, 0)', '(0, 1, 0)', '(0, 0, 1)'])
+            return [ind + 'ags = [%s(%s), P.fn(%r)(%s)]' % (tgt, a, nm2, b), ind + 'steps = [None, None]',
+                    ind + 'for rnd_ in range(%d):' % rnd.randrange(2, 8), ind + '    for i_ in %s:' % order,
+                    ind + '        if ags[i_] is None:', ind + '            continue', ind + '        try:',
+                    ind + '            if steps[i_] is None:', ind + '                steps[i_] = ags[i_].asend(None if rnd_ == 0 else rnd_)',
+                    ind + '                steps[i_].send(None)', ind + '            else:', ind + '                steps[i_].send(rnd_)',
+                    ind + '            A(%d)' % rnd.choice([1, 5, 30]), ind + '        except StopIteration:', ind + '            steps[i_] = None',
+                    ind + '        except (StopAsyncIteration, ValueError):', ind + '            ags[i_] = None', ind + '            steps[i_] = None',
+                    ind + 'for i_ in (0, 1):', ind + '    try:', ind + '        for _k in range(60):', ind + '            if steps[i_] is None:',
+                    ind + '                break', ind + '            steps[i_].send(None)',
+                    ind + '    except (StopIteration, StopAsyncIteration, ValueError, RuntimeError):', ind + '        pass',
+                    ind + '    if ags[i_] is not None:', ind + '        try:', ind + '            c_ = ags[i_].aclose()', ind + '            for _k in range(60):',
+                    ind + '                c_.send(None)', ind + '        except (StopIteration, StopAsyncIteration, ValueError, RuntimeError):', ind + '            pass',
+                    ind + 'del ags, steps']
         if k == 'co' and 'asyncio' in features and rnd.random() < 0.6:
             # the same coroutines as tasks of a real event loop: every task runs in its own copy of the context
             cos = [x for x in names if kinds[x] == 'co']
@@ -353,6 +377,7 @@ def make_program(rnd, features, threads=False):
     nreg = rnd.randrange(1, len(names) + 1)
     regnames = rnd.sample(names, nreg)
     regnames += [x for x in delegs if x not in regnames]
+    regnames += [x for x in names if kinds[x] == 'agen' and x not in regnames]
     if 'addmod' in features:
         # register through add_module: the functions of each file as one module object
         main_names = [x for x in regnames if not x.startswith('u')]
@@ -385,7 +410,8 @@ def make_program(rnd, features, threads=False):
             registered += grp
         regnames = []
     for nm in regnames:
-        if (rnd.random() < 0.5 or 'bare' in features) and not ('cotasks' in features and kinds[nm] == 'co'):
+        if (rnd.random() < 0.5 or 'bare' in features) and not ('cotasks' in features and kinds[nm] == 'co') \
+                and not (kinds[nm] == 'agen' and rnd.random() < 0.8):
             m.append('    P.reg(%r)' % nm)
             registered.append(nm)
         else:
@@ -394,8 +420,10 @@ def make_program(rnd, features, threads=False):
     snapcall = (lambda: 'P.snap(%d)' % rnd.randrange(3)) if 'snapmodes' in features else (lambda: 'P.snap()')
     phases = rnd.randrange(1, 4)
     for ph in range(phases):
-        style = rnd.randrange(3)
+        style = rnd.choice([2, 2, 0, 1]) if 'agen' in features else rnd.randrange(3)
         body = []
+        if 'agen' in features and ph == 0:
+            body += call_stmt(rnd.choice([x for x in names if kinds[x] == 'agen'] or names), '        ' if style == 0 else '    ')
         if delegs and ph == 0:
             body += call_stmt(delegs[0], '        ' if style == 0 else '    ')
         for _ in range(rnd.randrange(1, 4)):
